@@ -78,16 +78,21 @@ def register2(w):
             w.contracts.pop((q, cls), None)
         return w.contract(q, selfclass=classes, **kw)
     LOCAL = "entry.host is None and entry.port is None and not S.url_link(entry.selector)"
+    REMOTE = "entry.host is not None and entry.host != '' and entry.type is not None and entry.name is not None and not S.url_link(entry.selector) and not S.url_shape(entry.selector)"
+    GURL = ("'gopher://' + (self.server.server_name if entry.host is None else entry.host) + ':' + str(70 if entry.port is None else entry.port) + '/' + "
+            "urllib.parse.quote(str(entry.type) + entry.selector, errors='surrogateescape')")
+    REM = ["implies(%s and entry.type != 'i' and entry.type != '7', result == '=> ' + %s + ' ' + S.gem_desc(entry.name) + '\\n')" % (REMOTE, GURL)]
     replace(P + "gemini.py::GeminiProtocol.renderobjinfo", ["GeminiProtocol"], params=E, modifies=[], raises={}, returns="str",
             ensures=["implies(%s and entry.type != 'i' and entry.type != '7', result == '=> ' + S.gem_link(entry.selector) + ' ' + S.gem_desc(entry.name) + '\\n')" % LOCAL,
                      "implies(%s and entry.type == '7', result == '=> /GEMINI-QUERY' + S.gem_link(entry.selector) + ' ' + S.gem_desc(entry.name) + '\\n')" % LOCAL,
-                     "implies(entry.type == 'i', result == S.gem_desc(entry.name) + '\\n')"],
-            note="local links carry the percent-encoded selector; informational lines are the display name",
+                     "implies(entry.type == 'i', result == S.gem_desc(entry.name) + '\\n')"] + REM,
+            note="local links carry the percent-encoded selector; informational lines are the display name; an entry with a host or a port of its own "
+                 "is a gopher:// URL to exactly that host and port (C06: equivalent link targets in every protocol)",
             props=["C05", "C06", "C03", "C04", "C20"])
     replace(P + "spartan.py::SpartanProtocol.renderobjinfo", ["SpartanProtocol"], params=E, modifies=[], raises={}, returns="str",
             ensures=["implies(%s and entry.type != 'i' and entry.type != '7', result == '=> ' + S.gem_link(entry.selector) + ' ' + S.gem_desc(entry.name) + '\\n')" % LOCAL,
                      "implies(%s and entry.type == '7', result == '=: ' + S.gem_link(entry.selector) + ' ' + S.gem_desc(entry.name) + '\\n')" % LOCAL,
-                     "implies(entry.type == 'i', result == S.gem_desc(entry.name) + '\\n')"],
+                     "implies(entry.type == 'i', result == S.gem_desc(entry.name) + '\\n')"] + REM,
             props=["C05", "C06", "C03", "C04", "C20"])
     # decode-once: the selector a URL protocol hands to the handler chain is norm(unquote(path)), nothing else
     for key, clause in (((P + "http.py::HTTPProtocol.handle", "HTTPProtocol"), "self.selector == S.norm(urllib.parse.unquote(self.requestparts[1].split('?')[0], errors='surrogateescape'))"),
